@@ -39,6 +39,11 @@ func DistanceToHaversine(meters float64) float64 {
 }
 
 func DistanceFromHaversine(haversine float64) float64 {
+	if haversine > 1 {
+		// rounding lifts the haversine of (nearly) antipodal locations a few
+		// ulps above 1, where the arc sine is not defined (NaN)
+		haversine = 1
+	}
 	return earthRadius * 2 * math.Asin(math.Sqrt(haversine))
 }
 
